@@ -329,7 +329,7 @@ pub fn engine_batches(prop: &'static str, tier: &str, seed: u64) -> Vec<Batch<'s
         ("C01", "quick") => (25_000u64, 10_000u64),
         ("C05", "quick") => (28_000u64, 10_000u64),
         (_, "quick") => (40_000u64, 15_000u64),
-        _ => (1_500_000, 500_000),
+        _ => (600_000, 200_000),
     };
     let mut out = vec![];
     let f1 = fl.clone();
